@@ -1229,4 +1229,479 @@ example : (⟨none, none, none, none⟩ : CallOpts).methodsV = [.batchXml, .batc
     (⟨none, none, none, none⟩ : CallOpts).cpsV = false ∧ (⟨none, none, none, none⟩ : CallOpts).useAcqV = true ∧
     (⟨none, none, none, none⟩ : CallOpts).fullV = false := ⟨rfl, rfl, rfl, rfl⟩
 
+/-! ## composed theorems: the entry points against their specifications, `load`, listing order, binary-vs-CSV agreement of the two imports, histories -/
+
+/-- `stack_pixel` for batches in which some data file has no (readable) binary: both the code and the
+specification raise `FileNotFoundError` as soon as a collected line lacks its binary (that is what makes
+`load` fall back to the CSV import); otherwise as `stack_pixel`. -/
+theorem stack_pixel_partial {α : Type} (m : Meta) (files : List (DataFile α)) (ms : List MassInfo)
+    (methods : List Method) (R k : Nat)
+    (hids : ms.map (·.id) = List.range' 1 k)
+    (hfiles : ∀ f ∈ files, f.hasBinary = true → ∃ bc, Layout R k bc f.scans f.profile)
+    (hlines : linesOf m false methods = linesOf m true methods) :
+    loadBinary m files (some ms) methods = loadBinarySpec m files ms methods := by
+  unfold loadBinary loadBinarySpec
+  rw [hlines]
+  cases linesOf m true methods with
+  | error e => rfl
+  | ok lines =>
+    simp only [bind, Except.bind]
+    cases hd : allSome (lines.map (findFile files)) with
+    | none => rfl
+    | some dfs =>
+      have hmem := mem_files_of_lines files lines dfs hd
+      cases hb : dfs.all (·.hasBinary) with
+      | false => simp only [orErr, hb, Bool.not_false, if_true, throw, throwThe, MonadExceptOf.throw]
+      | true =>
+        have hbin : ∀ f ∈ dfs, f.hasBinary = true := by
+          rw [List.all_eq_true] at hb; exact hb
+        have hk : ms.length = k := by
+          have := congrArg List.length hids
+          simpa using this
+        have himg : allSome ((dfs.map (fun f => decode (ms.map (·.id)) f.scans f.profile)).map
+              (fun line => allSome (line.map allSome)))
+            = some (dfs.map (fun f => (List.range ms.length).map (column f.profile))) := by
+          rw [List.map_map, hids, hk]
+          apply allSome_map_of_forall
+          intro f hf
+          obtain ⟨bc, L⟩ := hfiles f (hmem f hf) (hbin f hf)
+          exact decode_allSome L
+        have hn : (dfs.all (fun f => decide (f.scans.length = (dfs.head?.map (·.scans.length)).getD 0))) = true := by
+          rw [List.all_eq_true]
+          intro f hf
+          obtain ⟨bc, L⟩ := hfiles f (hmem f hf) (hbin f hf)
+          cases dfs with
+          | nil => simp at hf
+          | cons f0 rest =>
+            obtain ⟨bc0, L0⟩ := hfiles f0 (hmem f0 (by simp)) (hbin f0 (by simp))
+            simp [L.nscans, L0.nscans]
+        simp only [orErr, hb, himg, hn, Bool.not_true, Bool.false_eq_true, if_false, pure, Except.pure, throw,
+          throwThe, MonadExceptOf.throw]
+
+/-- `load_binary` with any option tuple equals its specification `loadBinaryCallSpec` (the specified image — lines
+in the specified collection order, pixel = the Analog value of that element in that scan's record, names of the
+specified mass table — divided when counts per second are asked for, in the return shape `full` asks for), for
+every batch whose data files WITH binaries have the instrument layout; a collected line without binaries makes
+code and specification raise alike. -/
+theorem loadBinaryCall_eq_spec {α : Type} (m : Meta) (files : List (DataFile α)) (ms : List MassInfo)
+    (divide : List MassInfo → Image α → Image α) (o : CallOpts) (R k : Nat)
+    (hdiv : ∀ t im, (divide t im).times = im.times)
+    (hids : ms.map (·.id) = List.range' 1 k)
+    (hfiles : ∀ f ∈ files, f.hasBinary = true → ∃ bc, Layout R k bc f.scans f.profile)
+    (hlines : linesOf m false o.methodsV = linesOf m true o.methodsV) :
+    loadBinaryCall m files (some ms) divide o = loadBinaryCallSpec m files ms divide o := by
+  rw [loadBinaryCall_eq m files ms divide o hdiv, stack_pixel_partial m files ms o.methodsV R k hids hfiles hlines]
+  rfl
+
+/-- `load_csv` with any option tuple equals its specification `loadCsvCallSpec`: the specified CSV image, named by
+the batch's own mass table (`tbl`) when `use_acq_for_names` holds and the method file exists (`hacq`: the method
+file lists the batch's mass table, which `acqNames_eq_massNames` derives from the files), by the header otherwise. -/
+theorem loadCsvCall_eq_spec {α : Type} (m : Meta) (files : List (DataFile α)) (acq : Option (List Name))
+    (tbl : List Name) (o : CallOpts) (ncol nscan : Nat) (hscan : 2 ≤ nscan)
+    (hfiles : ∀ f ∈ files, ∀ c, f.csv = some c →
+      CsvWF c ∧ c.header.length = ncol ∧ c.rows.length = nscan ∧ (c.header.head?).map validName = some timeName)
+    (hlen : tbl.length = ncol - 1) (hacq : ∀ ns, acq = some ns → ns = tbl)
+    (hlines : linesOf m false o.methodsV = linesOf m true o.methodsV) :
+    loadCsvCall m files acq o = loadCsvCallSpec m files acq tbl o := by
+  rw [loadCsvCall_eq]
+  unfold loadCsvCallSpec
+  have key : ∀ names, (∀ ns, names = some ns → ns.length = ncol - 1) →
+      loadCsv m files names o.methodsV = loadCsvSpec m files names o.methodsV :=
+    fun names hn => csv_pixel m files names o.methodsV ncol nscan hscan hfiles hn hlines
+  cases hu : o.useAcqV with
+  | false => simp [key none (by simp)]
+  | true =>
+    cases ha : acq with
+    | none => simp [key none (by simp)]
+    | some ns =>
+      have := hacq ns ha
+      subst this
+      simp [key (some ns) (by intro ns' h; cases h; exact hlen)]
+
+/-- `load` returns the binary import whenever that returns, and the CSV import exactly when the binary import raises -/
+theorem load_binary_first {γ : Type} (b c : Except Err γ) :
+    (∀ r, b = .ok r → load b c = .ok r) ∧ (∀ e, b = .error e → load b c = c) := by
+  constructor
+  · intro r h; subst h; rfl
+  · intro e h; subst h; rfl
+
+/-- Every entry point — `load_binary`, `load_csv` and `load` (binary first, CSV when that raises), with any option
+tuple — returns on a disk satisfying `Disk.Ok` exactly what its specification says: `load` is no longer
+differential-only.  The hypotheses are those of the single theorems, stated about the FILES: `massInfo_spec`
+(`hidx`), `collect_eq_spec` (`hcsvlog`, `hnum`), `stack_pixel` (`hbin`, for the files that have binaries),
+`csv_pixel` (`hexp`, `hscan`), `acqNames_eq_massNames` (`hacq`). -/
+theorem callOn_eq_spec {α γ : Type} (enc : α → γ) (encQ : Rat → γ) (divide : List MassInfo → Image α → Image α)
+    (hdiv : ∀ t im, (divide t im).times = im.times)
+    (d : Disk α) (fn : EntryPoint) (o : CallOpts) (R k : Nat) (ok : d.Ok o.methodsV R k) :
+    callOn enc encQ divide d fn o = callOnSpec enc encQ divide d fn o := by
+  obtain ⟨hm, hids⟩ := massInfo_spec d.xs d.xadd ok.hidx
+  rw [ok.hk] at hids
+  have hlines := (collect_eq_spec d.mt o.methodsV ok.hcsvlog ok.hnum).2
+  have hb : loadBinaryCall d.mt d.files (massInfo d.xs d.xadd) divide o
+      = loadBinaryCallSpec d.mt d.files (massInfoSpec d.xs d.xadd) divide o := by
+    rw [hm]
+    exact loadBinaryCall_eq_spec d.mt d.files _ divide o R k hdiv hids ok.hbin hlines
+  have hlen : ((massInfoSpec d.xs d.xadd).map (·.str)).length = k + 1 - 1 := by
+    have := congrArg List.length hids
+    simpa using this
+  have hc : loadCsvCall d.mt d.files d.acq o
+      = loadCsvCallSpec d.mt d.files d.acq ((massInfoSpec d.xs d.xadd).map (·.str)) o :=
+    loadCsvCall_eq_spec d.mt d.files d.acq _ o (k + 1) R ok.hscan ok.hexp hlen ok.hacq hlines
+  unfold callOn callOnSpec
+  simp only [hb, hc]
+
+/-- HISTORIES: any number of imports made one after another by one process, through any entry points with any
+options, the batch directory rewritten in any way between them (other masses, another number of masses, lines,
+scans, another acquisition order; the same path or not): call by call the process returns what the specification
+says of the disk AS IT IS AT THAT CALL, provided each disk satisfies `Disk.Ok`.  (The model of the module has no
+state; `processMemo_by_path_wrong` shows what a state would do.) -/
+theorem process_eq_spec {α γ : Type} (enc : α → γ) (encQ : Rat → γ) (divide : List MassInfo → Image α → Image α)
+    (hdiv : ∀ t im, (divide t im).times = im.times)
+    (calls : List (Disk α × EntryPoint × CallOpts))
+    (ok : ∀ c ∈ calls, ∃ R k, c.1.Ok c.2.2.methodsV R k) :
+    process enc encQ divide calls = processSpec enc encQ divide calls := by
+  unfold process processSpec
+  apply List.map_congr_left
+  intro c hc
+  obtain ⟨R, k, h⟩ := ok c hc
+  exact callOn_eq_spec enc encQ divide hdiv c.1 c.2.1 c.2.2 R k h
+
+/-- ... and the value of a call does not depend on the calls before it or after it -/
+theorem process_step {α γ : Type} (enc : α → γ) (encQ : Rat → γ) (divide : List MassInfo → Image α → Image α)
+    (pre post : List (Disk α × EntryPoint × CallOpts)) (c : Disk α × EntryPoint × CallOpts) :
+    (process enc encQ divide (pre ++ c :: post))[pre.length]? = some (callOn enc encQ divide c.1 c.2.1 c.2.2) := by
+  unfold process
+  simp
+
+/-- Remembering what was read is harmless exactly when the key determines it: if two disks with the same key
+hold the same mass table files (a key made of the files' CONTENT, say), the remembering process returns, call by
+call, what the stateless `load_binary` returns — for every history. -/
+theorem processMemo_eq_of_key_determines {α κ : Type} [DecidableEq κ] (key : Disk α → κ)
+    (divide : List MassInfo → Image α → Image α)
+    (hkey : ∀ d d' : Disk α, key d = key d' → d.xs = d'.xs ∧ d.xadd = d'.xadd)
+    (calls : List (Disk α × CallOpts)) :
+    processMemo key divide [] calls
+      = calls.map (fun c => loadBinaryCall c.1.mt c.1.files (massInfo c.1.xs c.1.xadd) divide c.2) := by
+  suffices H : ∀ (cache : List (κ × Option (List MassInfo))),
+      (∀ p ∈ cache, ∀ d : Disk α, key d = p.1 → p.2 = massInfo d.xs d.xadd) →
+      processMemo key divide cache calls
+        = calls.map (fun c => loadBinaryCall c.1.mt c.1.files (massInfo c.1.xs c.1.xadd) divide c.2) from
+    H [] (by simp)
+  induction calls with
+  | nil => intro cache _; rfl
+  | cons c rest ih =>
+    intro cache inv
+    obtain ⟨d, o⟩ := c
+    have htbl : (memoGet (key d) cache).getD (massInfo d.xs d.xadd) = massInfo d.xs d.xadd := by
+      cases hg : memoGet (key d) cache with
+      | none => rfl
+      | some t => exact inv _ (memoGet_mem _ _ _ hg) d rfl
+    simp only [processMemo, List.map_cons, htbl]
+    congr 1
+    apply ih
+    intro p hp d' hd'
+    rcases List.mem_cons.mp hp with rfl | hp
+    · simp only at hd' ⊢
+      obtain ⟨h1, h2⟩ := hkey d' d hd'
+      rw [h1, h2]
+    · exact inv p hp d' hd'
+
+/-- a one-line, one-mass batch at a fixed path: mass `name``mz`, recorded values `v`, `v + 1` -/
+def memoDisk (name : Name) (mz : Int) (v : Nat) : Disk Nat :=
+  { mt := { listing := [⟨"1.d".toList, true⟩], xml := some [⟨pass, some "1.d".toList⟩], csv := none, acq := none },
+    files := [{ name := "1.d".toList, hasBinary := true, scans := [⟨68, 28, 0⟩, ⟨96, 28, 1⟩], profile := [[v], [v + 1]], csv := none }],
+    xs := [⟨name, mz, 1⟩], xadd := none, acq := none }
+
+def memoOpts : CallOpts := { methods := some [.batchXml], cps := none, useAcq := none, full := none }
+
+/-- ... and wrong when it does not (C02-c3): a batch measuring P31 is imported, the batch at the SAME path is
+replaced by one measuring Eu153 and imported again.  Keyed on the path, the second image is named `P31`; the
+stateless import names it `Eu153`. -/
+theorem processMemo_by_path_wrong :
+    ((processMemo (fun _ => ()) (fun _ im => im) [] [(memoDisk "P".toList 31 5, memoOpts), (memoDisk "Eu".toList 153 7, memoOpts)]).map
+        (fun r => r.toOption.map (·.names))) = [some ["P31".toList], some ["P31".toList]] ∧
+    (([(memoDisk "P".toList 31 5, memoOpts), (memoDisk "Eu".toList 153 7, memoOpts)].map
+        (fun c => loadBinaryCall c.1.mt c.1.files (massInfo c.1.xs c.1.xadd) (fun _ im => im) c.2)).map
+        (fun r => r.toOption.map (·.names))) = [some ["P31".toList], some ["Eu153".toList]] := by
+  constructor <;> decide
+
+/-- "Lines appear in the order the batch log says, regardless of directory listing order": `collect_datafiles`
+(every list of methods, the directory scan included when the data directories carry distinct numbers) returns the
+same list whatever the order of the directory listing. -/
+theorem collect_listing_independent (m₁ m₂ : Meta) (h : m₁.SameUpToListing m₂)
+    (hinj : ∀ a ∈ dataDirs m₁.listing, ∀ b ∈ dataDirs m₁.listing, digitsVal a = digitsVal b → a = b)
+    (methods : List Method) :
+    collect m₁ false methods = collect m₂ false methods ∧ linesOf m₁ false methods = linesOf m₂ false methods := by
+  have hscan : m₁.scan false = m₂.scan false := by
+    simp only [Meta.scan, Bool.false_eq_true, if_false]
+    exact byNumber_listing_independent _ _ h.perm hinj
+  have hsrc : ∀ meth, m₁.source false meth = m₂.source false meth := by
+    intro meth
+    cases meth <;> simp [Meta.source, h.xml, h.csv, h.acq]
+  have hall : ∀ files : List Name, files.all m₁.exists = files.all m₂.exists := by
+    intro files
+    congr 1
+    funext n
+    exact exists_perm m₁ m₂ h.perm n
+  have hc : collect m₁ false methods = collect m₂ false methods := by
+    induction methods with
+    | nil => rfl
+    | cons meth rest ih =>
+      cases meth with
+      | alphabetical => simpa [collect] using hscan
+      | batchXml => simp only [collect, hsrc, hall, ih]
+      | batchCsv => simp only [collect, hsrc, hall, ih]
+      | acqMethod => simp only [collect, hsrc, hall, ih]
+  refine ⟨hc, ?_⟩
+  unfold linesOf
+  rw [hc, hscan]
+
+/-- ... and so do the imports: `load_binary`, `load_csv` and `load` with any options return the same value
+whatever the listing order -/
+theorem callOn_listing_independent {α γ : Type} (enc : α → γ) (encQ : Rat → γ) (divide : List MassInfo → Image α → Image α)
+    (d : Disk α) (m₂ : Meta) (h : d.mt.SameUpToListing m₂)
+    (hinj : ∀ a ∈ dataDirs d.mt.listing, ∀ b ∈ dataDirs d.mt.listing, digitsVal a = digitsVal b → a = b)
+    (fn : EntryPoint) (o : CallOpts) :
+    callOn enc encQ divide d fn o = callOn enc encQ divide { d with mt := m₂ } fn o := by
+  have hl := (collect_listing_independent d.mt m₂ h hinj o.methodsV).2
+  have hb : ∀ masses, loadBinary d.mt d.files masses o.methodsV = loadBinary m₂ d.files masses o.methodsV := by
+    intro masses
+    unfold loadBinary
+    rw [hl]
+  have hc : ∀ names, loadCsv d.mt d.files names o.methodsV = loadCsv m₂ d.files names o.methodsV := by
+    intro names
+    unfold loadCsv
+    rw [hl]
+  unfold callOn loadBinaryCall loadCsvCall
+  simp only [hb, hc]
+
+/-- shape of a binary import: every line has `k` elements of `R` scans -/
+theorem binary_import_shape {α : Type} (m : Meta) (files : List (DataFile α)) (ms : List MassInfo)
+    (methods : List Method) (R k : Nat)
+    (hids : ms.map (·.id) = List.range' 1 k)
+    (hfiles : ∀ f ∈ files, f.hasBinary = true ∧ ∃ bc, Layout R k bc f.scans f.profile)
+    (hlines : linesOf m false methods = linesOf m true methods)
+    (im : Image α) (h : loadBinary m files (some ms) methods = .ok im) :
+    ∀ line ∈ im.img, line.length = k ∧ ∀ col ∈ line, col.length = R := by
+  rw [stack_pixel m files ms methods R k hids hfiles hlines] at h
+  unfold loadBinarySpec at h
+  cases hl : linesOf m true methods with
+  | error e => rw [hl] at h; simp [bind, Except.bind] at h
+  | ok lines =>
+    rw [hl] at h
+    simp only [bind, Except.bind] at h
+    cases hd : allSome (lines.map (findFile files)) with
+    | none => rw [hd] at h; simp [orErr] at h
+    | some dfs =>
+      rw [hd] at h
+      have hmem := mem_files_of_lines files lines dfs hd
+      have hbin : (dfs.all (·.hasBinary)) = true := by
+        rw [List.all_eq_true]; exact fun f hf => (hfiles f (hmem f hf)).1
+      simp only [orErr, hbin, Bool.not_true, Bool.false_eq_true, if_false, pure, Except.pure, Except.ok.injEq] at h
+      subst h
+      have hk : ms.length = k := by
+        have := congrArg List.length hids
+        simpa using this
+      intro line hline
+      simp only [List.mem_map] at hline
+      obtain ⟨f, hf, rfl⟩ := hline
+      obtain ⟨bc, L⟩ := (hfiles f (hmem f hf)).2
+      refine ⟨by simp [hk], ?_⟩
+      intro col hcol
+      simp only [List.mem_map, List.mem_range] at hcol
+      obtain ⟨j, hj, rfl⟩ := hcol
+      rw [column_length f.profile j]
+      · exact L.nprofile
+      · intro row hrow
+        have := L.width row hrow
+        exact ⟨row[j], by rw [List.getElem?_eq_getElem]⟩
+
+/-- shape of a CSV import: every line (with or without export) has `ncol - 1` elements of `nscan` scans -/
+theorem csv_import_shape {α : Type} (m : Meta) (files : List (DataFile α)) (names : Option (List Name))
+    (methods : List Method) (ncol nscan : Nat) (hscan : 2 ≤ nscan)
+    (hfiles : ∀ f ∈ files, ∀ c, f.csv = some c →
+      CsvWF c ∧ c.header.length = ncol ∧ c.rows.length = nscan ∧ (c.header.head?).map validName = some timeName)
+    (hnames : ∀ ns, names = some ns → ns.length = ncol - 1)
+    (hlines : linesOf m false methods = linesOf m true methods)
+    (im : Image Rat) (h : loadCsv m files names methods = .ok im) :
+    ∀ line ∈ im.img, line.length = ncol - 1 ∧ ∀ col ∈ line, col.length = nscan := by
+  rw [csv_pixel m files names methods ncol nscan hscan hfiles hnames hlines] at h
+  unfold loadCsvSpec at h
+  cases hl : linesOf m true methods with
+  | error e => rw [hl] at h; simp at h
+  | ok lines =>
+    rw [hl] at h
+    simp only at h
+    cases hd : allSome (lines.map (findFile files)) with
+    | none => rw [hd] at h; simp at h
+    | some dfs =>
+      rw [hd] at h
+      simp only at h
+      have hmem := mem_files_of_lines files lines dfs hd
+      cases hcs : dfs.filterMap (·.csv) with
+      | nil => rw [hcs] at h; simp at h
+      | cons c0 rest =>
+        rw [hcs] at h
+        simp only at h
+        obtain ⟨f0, hf0, e0⟩ : ∃ f ∈ dfs, f.csv = some c0 := by
+          have : c0 ∈ dfs.filterMap (·.csv) := by rw [hcs]; simp
+          obtain ⟨f, hf, e⟩ := List.mem_filterMap.mp this
+          exact ⟨f, hf, e⟩
+        obtain ⟨_, hcol0, hrow0, _⟩ := hfiles f0 (hmem f0 hf0) c0 e0
+        rw [hcol0, hrow0] at h
+        cases hc : allSome (dfs.map (fun f => csvLineSpec ncol nscan f.csv)) with
+        | none => rw [hc] at h; simp at h
+        | some cols =>
+          rw [hc] at h
+          simp only [Except.ok.injEq] at h
+          subst h
+          intro line hline
+          simp only [List.mem_map] at hline
+          obtain ⟨full, hfull, rfl⟩ := hline
+          have := allSome_mem _ _ hc full hfull
+          simp only [List.mem_map] at this
+          obtain ⟨f, hf, hspec⟩ := this
+          obtain ⟨h1, h2⟩ := csvLineSpec_shape ncol nscan f.csv
+            (fun c hcc => (hfiles f (hmem f hf) c hcc).2.2.1) full hspec
+          refine ⟨by simp [h1], ?_⟩
+          intro col hcol
+          exact h2 col (List.mem_of_mem_drop hcol)
+
+/-- "The binary import and the import of the per-line CSV exports of the same batch agree to the precision of the
+CSV text", composed with the two import theorems: for every batch with the instrument layout whose exports are
+well-formed and of the batch's shape (`k` masses, `R ≥ 2` scans), IF every number in an export is the recorded
+count divided by the accumulation time of its mass (one correctly rounded float64 division: `v` within `2⁻⁵³`
+relative) rounded to `d` decimals (`y` within `½·10⁻ᵈ` of `v`) — a statement about the FILES of the batch, not
+about images — THEN what `load_binary` (divided to counts per second) and `load_csv` return agree on every line
+that has an export, to half a unit of the `d`-th decimal. -/
+theorem imports_agree_of_printed (d : Nat) (m : Meta) (files : List (DataFile Rat)) (ms : List MassInfo)
+    (names : Option (List Name)) (methods : List Method) (R k : Nat) (hscan : 2 ≤ R)
+    (hids : ms.map (·.id) = List.range' 1 k)
+    (hfiles : ∀ f ∈ files, f.hasBinary = true ∧ ∃ bc, Layout R k bc f.scans f.profile)
+    (hexp : ∀ f ∈ files, ∀ c, f.csv = some c →
+      CsvWF c ∧ c.header.length = k + 1 ∧ c.rows.length = R ∧ (c.header.head?).map validName = some timeName)
+    (hnames : ∀ ns, names = some ns → ns.length = k)
+    (hlines : linesOf m false methods = linesOf m true methods)
+    (hprint : ∀ f ∈ files, ∀ c, f.csv = some c → ∀ (j r : Nat) (mj : MassInfo) (x y : Rat), ms[j]? = some mj →
+      (f.profile[r]?).bind (fun row => row[j]?) = some x → ((c.rows[r]?).bind (·[j + 1]?)).bind parseDec = some y →
+      ∃ v, |v - x / mj.acctime| ≤ 1 / 2 ^ 53 * |x / mj.acctime| ∧ |y - v| ≤ halfUnit d)
+    (ib ic : Image Rat) (hb : loadBinary m files (some ms) methods = .ok ib)
+    (hc : loadCsv m files names methods = .ok ic) :
+    ∃ lines, linesOf m true methods = .ok lines ∧
+      agree (halfUnit d) printSlack (lines.map (fun n => ((findFile files n).bind (·.csv)).isSome)) (cps ms ib) ic = true := by
+  have hk : ms.length = k := by
+    have := congrArg List.length hids
+    simpa using this
+  have hnames' : ∀ ns, names = some ns → ns.length = k + 1 - 1 := by
+    intro ns h; simpa using hnames ns h
+  obtain ⟨lines, hl, _, hlenb, _, hpb⟩ := binary_import_pointwise m files ms methods R k hids hfiles hlines ib hb
+  obtain ⟨lines', hl', hlenc, _, hpc⟩ := csv_import_pointwise m files names methods (k + 1) R hscan hexp hnames' hlines ic hc
+  rw [hl] at hl'
+  simp only [Except.ok.injEq] at hl'
+  subst hl'
+  have shb := binary_import_shape m files ms methods R k hids hfiles hlines ib hb
+  have shc := csv_import_shape m files names methods (k + 1) R hscan hexp hnames' hlines ic hc
+  refine ⟨lines, hl, agree_of_printed d _ (cps ms ib) ic ?_ ?_⟩
+  · -- shape
+    refine ⟨by simp [cps, hlenb, hlenc], by simp [cps, hlenb], ?_⟩
+    intro i la lb _ hla hlb
+    obtain ⟨line, hline, hlen, hcols⟩ := cps_line ms ib i la hla
+    have hlm : line ∈ ib.img := List.mem_of_getElem? hline
+    have hbm : lb ∈ ic.img := List.mem_of_getElem? hlb
+    obtain ⟨h1, h2⟩ := shb line hlm
+    obtain ⟨h3, h4⟩ := shc lb hbm
+    refine ⟨by rw [hlen, h1, hk, h3]; simp, ?_⟩
+    intro j ca cb hca hcb
+    obtain ⟨col, hcol, e⟩ := hcols ca (List.mem_of_getElem? hca)
+    rw [e, h2 col hcol, h4 cb (List.mem_of_getElem? hcb)]
+  · -- every printed number
+    intro i j r x y hp hx hy
+    have hi : i < lines.length := by
+      by_contra hge
+      rw [List.getElem?_eq_none (by simpa using hge)] at hp
+      simp at hp
+    obtain ⟨f, hf, _, hpix⟩ := hpb i hi
+    obtain ⟨f', hf', _, hcsv⟩ := hpc i hi
+    rw [hf] at hf'
+    simp only [Option.some.injEq] at hf'
+    subst hf'
+    have hfm : f ∈ files := List.mem_of_find?_eq_some hf
+    -- the line has an export
+    have hpres : ((findFile files lines[i]).bind (·.csv)).isSome = true := by
+      simpa [List.getElem?_map, List.getElem?_eq_getElem hi] using hp
+    rw [hf] at hpres
+    simp only [Option.bind_some] at hpres
+    obtain ⟨c, hcf⟩ := Option.isSome_iff_exists.mp hpres
+    -- indices are inside the image
+    obtain ⟨la, ca, hla, hca, hxr⟩ := px_some _ i j r x hx
+    obtain ⟨line, hline, hlen, hcols⟩ := cps_line ms ib i la hla
+    obtain ⟨h1, h2⟩ := shb line (List.mem_of_getElem? hline)
+    have hj : j < k := by
+      have : j < la.length := (List.getElem?_eq_some_iff.mp hca).1
+      rw [hlen, h1, hk] at this
+      simpa using this
+    have hr : r < R := by
+      obtain ⟨col, hcol, e⟩ := hcols ca (List.mem_of_getElem? hca)
+      have : r < ca.length := (List.getElem?_eq_some_iff.mp hxr).1
+      rw [e, h2 col hcol] at this
+      exact this
+    have hmj : ms[j]? = some ms[j] := List.getElem?_eq_getElem (by omega)
+    have hx' := (cps_pixel ms ib i j r ms[j] hmj).1
+    rw [hx, hpix j r hj hr] at hx'
+    cases hx0 : (f.profile[r]?).bind (fun row => row[j]?) with
+    | none => rw [hx0] at hx'; simp at hx'
+    | some x0 =>
+      rw [hx0] at hx'
+      simp only [Option.map_some, Option.some.injEq] at hx'
+      subst hx'
+      have hy' := (hcsv c hcf r hr).2 j (by omega)
+      rw [hy] at hy'
+      exact hprint f hfm c hcf j r ms[j] x0 y hmj hx0 hy'.symm
+
+/-- non-vacuity of `hprint`: a printer that rounds the exact quotient half up to `d` decimals meets it -/
+example (d : Nat) (x acc y : Rat) (h : y = roundDec d (x / acc)) :
+    ∃ v, |v - x / acc| ≤ 1 / 2 ^ 53 * |x / acc| ∧ |y - v| ≤ halfUnit d :=
+  ⟨x / acc, by simp, by rw [h]; exact roundDec_within d _⟩
+
+/-- non-vacuity of `Disk.Ok` / `callOn_eq_spec` / `process_eq_spec`: the two disks of `processMemo_by_path_wrong`
+(one line, one mass, two scans, no export, a BatchLog.xml) satisfy `Disk.Ok`, and `load` returns on them -/
+theorem memoDisk_ok (name : Name) (mz : Int) (v : Nat) : (memoDisk name mz v).Ok [.batchXml] 2 1 :=
+  { hk := rfl
+    hidx := by intro msms rows h; simp [memoDisk] at h
+    hbin := by
+      intro f hf _
+      simp only [memoDisk, List.mem_cons, List.not_mem_nil, or_false] at hf
+      subst hf
+      refine ⟨28, ⟨rfl, rfl, ?_, ?_, by decide⟩⟩
+      · intro row hrow
+        simp only [List.mem_cons, List.not_mem_nil, or_false] at hrow
+        rcases hrow with rfl | rfl <;> rfl
+      · intro r hr
+        match r, hr with
+        | 0, _ => exact ⟨rfl, rfl⟩
+        | 1, _ => exact ⟨rfl, rfl⟩
+        | n + 2, h => simp at h
+    hcsvlog := by intro rows h; simp [memoDisk] at h
+    hnum := by
+      intro a ha b hb _
+      have e : dataDirs [(⟨"1.d".toList, true⟩ : Entry)] = ["1.d".toList] := by decide
+      rw [show dataDirs (memoDisk name mz v).mt.listing = ["1.d".toList] from e] at ha hb
+      simp only [List.mem_cons, List.not_mem_nil, or_false] at ha hb
+      rw [ha, hb]
+    hscan := by decide
+    hexp := by
+      intro f hf c hc
+      simp only [memoDisk, List.mem_cons, List.not_mem_nil, or_false] at hf
+      subst hf
+      simp at hc
+    hacq := by intro ns h; simp [memoDisk] at h }
+
+example : (callOn (γ := Nat) id (fun _ => 0) (fun _ im => im) (memoDisk "Eu".toList 153 7) .load memoOpts).toOption.map
+    (fun r => (r.names, r.img)) = some (["Eu153".toList], [[[7, 8]]]) := by decide
+
+/-- non-vacuity of `collect_listing_independent`: a listing and its reverse -/
+example : (⟨[⟨"10.d".toList, true⟩, ⟨"9.d".toList, true⟩], none, none, none⟩ : Meta).SameUpToListing
+    ⟨[⟨"9.d".toList, true⟩, ⟨"10.d".toList, true⟩], none, none, none⟩ :=
+  ⟨List.Perm.swap _ _ _, rfl, rfl, rfl⟩
+
 end Pew.Agilent
